@@ -13,9 +13,24 @@ Base/Table.vos Base/Table.vok Base/Table.required_vos: Base/Table.v
 Gen/Consts.vo Gen/Consts.glob Gen/Consts.v.beautified Gen/Consts.required_vo: Gen/Consts.v 
 Gen/Consts.vio: Gen/Consts.v 
 Gen/Consts.vos Gen/Consts.vok Gen/Consts.required_vos: Gen/Consts.v 
+Gen/DescTables.vo Gen/DescTables.glob Gen/DescTables.v.beautified Gen/DescTables.required_vo: Gen/DescTables.v Model/Text.vo Model/XmlTree.vo
+Gen/DescTables.vio: Gen/DescTables.v Model/Text.vio Model/XmlTree.vio
+Gen/DescTables.vos Gen/DescTables.vok Gen/DescTables.required_vos: Gen/DescTables.v Model/Text.vos Model/XmlTree.vos
+Gen/Effects.vo Gen/Effects.glob Gen/Effects.v.beautified Gen/Effects.required_vo: Gen/Effects.v 
+Gen/Effects.vio: Gen/Effects.v 
+Gen/Effects.vos Gen/Effects.vok Gen/Effects.required_vos: Gen/Effects.v 
 Gen/Enums.vo Gen/Enums.glob Gen/Enums.v.beautified Gen/Enums.required_vo: Gen/Enums.v 
 Gen/Enums.vio: Gen/Enums.v 
 Gen/Enums.vos Gen/Enums.vok Gen/Enums.required_vos: Gen/Enums.v 
+Gen/EnvelopeTables.vo Gen/EnvelopeTables.glob Gen/EnvelopeTables.v.beautified Gen/EnvelopeTables.required_vo: Gen/EnvelopeTables.v 
+Gen/EnvelopeTables.vio: Gen/EnvelopeTables.v 
+Gen/EnvelopeTables.vos Gen/EnvelopeTables.vok Gen/EnvelopeTables.required_vos: Gen/EnvelopeTables.v 
+Gen/Gates.vo Gen/Gates.glob Gen/Gates.v.beautified Gen/Gates.required_vo: Gen/Gates.v 
+Gen/Gates.vio: Gen/Gates.v 
+Gen/Gates.vos Gen/Gates.vok Gen/Gates.required_vos: Gen/Gates.v 
+Gen/HyperVLits.vo Gen/HyperVLits.glob Gen/HyperVLits.v.beautified Gen/HyperVLits.required_vo: Gen/HyperVLits.v 
+Gen/HyperVLits.vio: Gen/HyperVLits.v 
+Gen/HyperVLits.vos Gen/HyperVLits.vok Gen/HyperVLits.required_vos: Gen/HyperVLits.v 
 Gen/Layouts.vo Gen/Layouts.glob Gen/Layouts.v.beautified Gen/Layouts.required_vo: Gen/Layouts.v Base/Layout.vo
 Gen/Layouts.vio: Gen/Layouts.v Base/Layout.vio
 Gen/Layouts.vos Gen/Layouts.vok Gen/Layouts.required_vos: Gen/Layouts.v Base/Layout.vos
@@ -28,6 +43,60 @@ Gen/MetaQcow2Tables.vos Gen/MetaQcow2Tables.vok Gen/MetaQcow2Tables.required_vos
 Gen/MetaVmdkTables.vo Gen/MetaVmdkTables.glob Gen/MetaVmdkTables.v.beautified Gen/MetaVmdkTables.required_vo: Gen/MetaVmdkTables.v 
 Gen/MetaVmdkTables.vio: Gen/MetaVmdkTables.v 
 Gen/MetaVmdkTables.vos Gen/MetaVmdkTables.vok Gen/MetaVmdkTables.required_vos: Gen/MetaVmdkTables.v 
+Gen/Qcow2Fun.vo Gen/Qcow2Fun.glob Gen/Qcow2Fun.v.beautified Gen/Qcow2Fun.required_vo: Gen/Qcow2Fun.v Base/Plan.vo Base/Table.vo Gen/Consts.vo Gen/Enums.vo
+Gen/Qcow2Fun.vio: Gen/Qcow2Fun.v Base/Plan.vio Base/Table.vio Gen/Consts.vio Gen/Enums.vio
+Gen/Qcow2Fun.vos Gen/Qcow2Fun.vok Gen/Qcow2Fun.required_vos: Gen/Qcow2Fun.v Base/Plan.vos Base/Table.vos Gen/Consts.vos Gen/Enums.vos
+Gen/VmTar.vo Gen/VmTar.glob Gen/VmTar.v.beautified Gen/VmTar.required_vo: Gen/VmTar.v 
+Gen/VmTar.vio: Gen/VmTar.v 
+Gen/VmTar.vos Gen/VmTar.vok Gen/VmTar.required_vos: Gen/VmTar.v 
+Gen/VmdkTables.vo Gen/VmdkTables.glob Gen/VmdkTables.v.beautified Gen/VmdkTables.required_vo: Gen/VmdkTables.v 
+Gen/VmdkTables.vio: Gen/VmdkTables.v 
+Gen/VmdkTables.vos Gen/VmdkTables.vok Gen/VmdkTables.required_vos: Gen/VmdkTables.v 
+Gen/XmlSites.vo Gen/XmlSites.glob Gen/XmlSites.v.beautified Gen/XmlSites.required_vo: Gen/XmlSites.v Model/XmlEntry.vo
+Gen/XmlSites.vio: Gen/XmlSites.v Model/XmlEntry.vio
+Gen/XmlSites.vos Gen/XmlSites.vok Gen/XmlSites.required_vos: Gen/XmlSites.v Model/XmlEntry.vos
+Spec/HyperV.vo Spec/HyperV.glob Spec/HyperV.v.beautified Spec/HyperV.required_vo: Spec/HyperV.v Base/Plan.vo Base/Layout.vo Base/Table.vo Model/HyperV.vo
+Spec/HyperV.vio: Spec/HyperV.v Base/Plan.vio Base/Layout.vio Base/Table.vio Model/HyperV.vio
+Spec/HyperV.vos Spec/HyperV.vok Spec/HyperV.required_vos: Spec/HyperV.v Base/Plan.vos Base/Layout.vos Base/Table.vos Model/HyperV.vos
+Spec/Qcow2.vo Spec/Qcow2.glob Spec/Qcow2.v.beautified Spec/Qcow2.required_vo: Spec/Qcow2.v Base/Plan.vo
+Spec/Qcow2.vio: Spec/Qcow2.v Base/Plan.vio
+Spec/Qcow2.vos Spec/Qcow2.vok Spec/Qcow2.required_vos: Spec/Qcow2.v Base/Plan.vos
+Spec/VmTar.vo Spec/VmTar.glob Spec/VmTar.v.beautified Spec/VmTar.required_vo: Spec/VmTar.v Base/Layout.vo
+Spec/VmTar.vio: Spec/VmTar.v Base/Layout.vio
+Spec/VmTar.vos Spec/VmTar.vok Spec/VmTar.required_vos: Spec/VmTar.v Base/Layout.vos
+Model/AlignedStream.vo Model/AlignedStream.glob Model/AlignedStream.v.beautified Model/AlignedStream.required_vo: Model/AlignedStream.v Base/Plan.vo
+Model/AlignedStream.vio: Model/AlignedStream.v Base/Plan.vio
+Model/AlignedStream.vos Model/AlignedStream.vok Model/AlignedStream.required_vos: Model/AlignedStream.v Base/Plan.vos
+Model/AlignedStreamB.vo Model/AlignedStreamB.glob Model/AlignedStreamB.v.beautified Model/AlignedStreamB.required_vo: Model/AlignedStreamB.v Base/Plan.vo Model/AlignedStream.vo
+Model/AlignedStreamB.vio: Model/AlignedStreamB.v Base/Plan.vio Model/AlignedStream.vio
+Model/AlignedStreamB.vos Model/AlignedStreamB.vok Model/AlignedStreamB.required_vos: Model/AlignedStreamB.v Base/Plan.vos Model/AlignedStream.vos
+Model/Chain.vo Model/Chain.glob Model/Chain.v.beautified Model/Chain.required_vo: Model/Chain.v Base/Plan.vo
+Model/Chain.vio: Model/Chain.v Base/Plan.vio
+Model/Chain.vos Model/Chain.vok Model/Chain.required_vos: Model/Chain.v Base/Plan.vos
+Model/Effects.vo Model/Effects.glob Model/Effects.v.beautified Model/Effects.required_vo: Model/Effects.v Gen/Effects.vo
+Model/Effects.vio: Model/Effects.v Gen/Effects.vio
+Model/Effects.vos Model/Effects.vok Model/Effects.required_vos: Model/Effects.v Gen/Effects.vos
+Model/EnvKeystore.vo Model/EnvKeystore.glob Model/EnvKeystore.v.beautified Model/EnvKeystore.required_vo: Model/EnvKeystore.v Base/Plan.vo Model/Envelope.vo Gen/Consts.vo Gen/EnvelopeTables.vo
+Model/EnvKeystore.vio: Model/EnvKeystore.v Base/Plan.vio Model/Envelope.vio Gen/Consts.vio Gen/EnvelopeTables.vio
+Model/EnvKeystore.vos Model/EnvKeystore.vok Model/EnvKeystore.required_vos: Model/EnvKeystore.v Base/Plan.vos Model/Envelope.vos Gen/Consts.vos Gen/EnvelopeTables.vos
+Model/Envelope.vo Model/Envelope.glob Model/Envelope.v.beautified Model/Envelope.required_vo: Model/Envelope.v Base/Plan.vo Base/Table.vo Base/Layout.vo Gen/Consts.vo Gen/Layouts.vo Gen/Enums.vo Gen/EnvelopeTables.vo
+Model/Envelope.vio: Model/Envelope.v Base/Plan.vio Base/Table.vio Base/Layout.vio Gen/Consts.vio Gen/Layouts.vio Gen/Enums.vio Gen/EnvelopeTables.vio
+Model/Envelope.vos Model/Envelope.vok Model/Envelope.required_vos: Model/Envelope.v Base/Plan.vos Base/Table.vos Base/Layout.vos Gen/Consts.vos Gen/Layouts.vos Gen/Enums.vos Gen/EnvelopeTables.vos
+Model/Gates.vo Model/Gates.glob Model/Gates.v.beautified Model/Gates.required_vo: Model/Gates.v Base/Plan.vo Gen/Consts.vo
+Model/Gates.vio: Model/Gates.v Base/Plan.vio Gen/Consts.vio
+Model/Gates.vos Model/Gates.vok Model/Gates.required_vos: Model/Gates.v Base/Plan.vos Gen/Consts.vos
+Model/Hds.vo Model/Hds.glob Model/Hds.v.beautified Model/Hds.required_vo: Model/Hds.v Base/Plan.vo Base/Table.vo Gen/Consts.vo
+Model/Hds.vio: Model/Hds.v Base/Plan.vio Base/Table.vio Gen/Consts.vio
+Model/Hds.vos Model/Hds.vok Model/Hds.required_vos: Model/Hds.v Base/Plan.vos Base/Table.vos Gen/Consts.vos
+Model/HyperV.vo Model/HyperV.glob Model/HyperV.v.beautified Model/HyperV.required_vo: Model/HyperV.v Base/Plan.vo Base/Layout.vo Base/Table.vo Gen/Consts.vo Gen/Layouts.vo Gen/Enums.vo Gen/HyperVLits.vo
+Model/HyperV.vio: Model/HyperV.v Base/Plan.vio Base/Layout.vio Base/Table.vio Gen/Consts.vio Gen/Layouts.vio Gen/Enums.vio Gen/HyperVLits.vio
+Model/HyperV.vos Model/HyperV.vok Model/HyperV.required_vos: Model/HyperV.v Base/Plan.vos Base/Layout.vos Base/Table.vos Gen/Consts.vos Gen/Layouts.vos Gen/Enums.vos Gen/HyperVLits.vos
+Model/Io.vo Model/Io.glob Model/Io.v.beautified Model/Io.required_vo: Model/Io.v Base/Plan.vo Model/Walk.vo
+Model/Io.vio: Model/Io.v Base/Plan.vio Model/Walk.vio
+Model/Io.vos Model/Io.vok Model/Io.required_vos: Model/Io.v Base/Plan.vos Model/Walk.vos
+Model/Lru.vo Model/Lru.glob Model/Lru.v.beautified Model/Lru.required_vo: Model/Lru.v 
+Model/Lru.vio: Model/Lru.v 
+Model/Lru.vos Model/Lru.vok Model/Lru.required_vos: Model/Lru.v 
 Model/MetaCodec.vo Model/MetaCodec.glob Model/MetaCodec.v.beautified Model/MetaCodec.required_vo: Model/MetaCodec.v Base/Plan.vo Base/Layout.vo
 Model/MetaCodec.vio: Model/MetaCodec.v Base/Plan.vio Base/Layout.vio
 Model/MetaCodec.vos Model/MetaCodec.vok Model/MetaCodec.required_vos: Model/MetaCodec.v Base/Plan.vos Base/Layout.vos
@@ -49,9 +118,96 @@ Model/MetaView.vos Model/MetaView.vok Model/MetaView.required_vos: Model/MetaVie
 Model/MetaVmdk.vo Model/MetaVmdk.glob Model/MetaVmdk.v.beautified Model/MetaVmdk.required_vo: Model/MetaVmdk.v Base/Plan.vo Base/Layout.vo Gen/Consts.vo Gen/Layouts.vo Gen/MetaVmdkTables.vo Model/MetaCodec.vo
 Model/MetaVmdk.vio: Model/MetaVmdk.v Base/Plan.vio Base/Layout.vio Gen/Consts.vio Gen/Layouts.vio Gen/MetaVmdkTables.vio Model/MetaCodec.vio
 Model/MetaVmdk.vos Model/MetaVmdk.vok Model/MetaVmdk.required_vos: Model/MetaVmdk.v Base/Plan.vos Base/Layout.vos Gen/Consts.vos Gen/Layouts.vos Gen/MetaVmdkTables.vos Model/MetaCodec.vos
+Model/OpenParent.vo Model/OpenParent.glob Model/OpenParent.v.beautified Model/OpenParent.required_vo: Model/OpenParent.v Base/Plan.vo
+Model/OpenParent.vio: Model/OpenParent.v Base/Plan.vio
+Model/OpenParent.vos Model/OpenParent.vok Model/OpenParent.required_vos: Model/OpenParent.v Base/Plan.vos
+Model/Qcow2.vo Model/Qcow2.glob Model/Qcow2.v.beautified Model/Qcow2.required_vo: Model/Qcow2.v Base/Arith.vo Base/Plan.vo Base/Table.vo Gen/Consts.vo Gen/Enums.vo Gen/Qcow2Fun.vo Spec/Qcow2.vo
+Model/Qcow2.vio: Model/Qcow2.v Base/Arith.vio Base/Plan.vio Base/Table.vio Gen/Consts.vio Gen/Enums.vio Gen/Qcow2Fun.vio Spec/Qcow2.vio
+Model/Qcow2.vos Model/Qcow2.vok Model/Qcow2.required_vos: Model/Qcow2.v Base/Arith.vos Base/Plan.vos Base/Table.vos Gen/Consts.vos Gen/Enums.vos Gen/Qcow2Fun.vos Spec/Qcow2.vos
+Model/SnapChain.vo Model/SnapChain.glob Model/SnapChain.v.beautified Model/SnapChain.required_vo: Model/SnapChain.v Base/Plan.vo
+Model/SnapChain.vio: Model/SnapChain.v Base/Plan.vio
+Model/SnapChain.vos Model/SnapChain.vok Model/SnapChain.required_vos: Model/SnapChain.v Base/Plan.vos
+Model/Text.vo Model/Text.glob Model/Text.v.beautified Model/Text.required_vo: Model/Text.v 
+Model/Text.vio: Model/Text.v 
+Model/Text.vos Model/Text.vok Model/Text.required_vos: Model/Text.v 
+Model/Vdi.vo Model/Vdi.glob Model/Vdi.v.beautified Model/Vdi.required_vo: Model/Vdi.v Base/Plan.vo Base/Table.vo Model/Walk.vo Gen/Consts.vo
+Model/Vdi.vio: Model/Vdi.v Base/Plan.vio Base/Table.vio Model/Walk.vio Gen/Consts.vio
+Model/Vdi.vos Model/Vdi.vok Model/Vdi.required_vos: Model/Vdi.v Base/Plan.vos Base/Table.vos Model/Walk.vos Gen/Consts.vos
 Model/Vhd.vo Model/Vhd.glob Model/Vhd.v.beautified Model/Vhd.required_vo: Model/Vhd.v Base/Arith.vo Base/Plan.vo Base/Table.vo Gen/Consts.vo
 Model/Vhd.vio: Model/Vhd.v Base/Arith.vio Base/Plan.vio Base/Table.vio Gen/Consts.vio
 Model/Vhd.vos Model/Vhd.vok Model/Vhd.required_vos: Model/Vhd.v Base/Arith.vos Base/Plan.vos Base/Table.vos Gen/Consts.vos
+Model/Vhdx.vo Model/Vhdx.glob Model/Vhdx.v.beautified Model/Vhdx.required_vo: Model/Vhdx.v Base/Plan.vo Base/Table.vo Model/Walk.vo Gen/Consts.vo
+Model/Vhdx.vio: Model/Vhdx.v Base/Plan.vio Base/Table.vio Model/Walk.vio Gen/Consts.vio
+Model/Vhdx.vos Model/Vhdx.vok Model/Vhdx.required_vos: Model/Vhdx.v Base/Plan.vos Base/Table.vos Model/Walk.vos Gen/Consts.vos
+Model/VmTar.vo Model/VmTar.glob Model/VmTar.v.beautified Model/VmTar.required_vo: Model/VmTar.v Base/Layout.vo Spec/VmTar.vo Gen/VmTar.vo
+Model/VmTar.vio: Model/VmTar.v Base/Layout.vio Spec/VmTar.vio Gen/VmTar.vio
+Model/VmTar.vos Model/VmTar.vok Model/VmTar.required_vos: Model/VmTar.v Base/Layout.vos Spec/VmTar.vos Gen/VmTar.vos
+Model/Vmdk.vo Model/Vmdk.glob Model/Vmdk.v.beautified Model/Vmdk.required_vo: Model/Vmdk.v Base/Arith.vo Base/Plan.vo Base/Table.vo Base/Layout.vo Gen/Consts.vo Gen/Layouts.vo Gen/VmdkTables.vo
+Model/Vmdk.vio: Model/Vmdk.v Base/Arith.vio Base/Plan.vio Base/Table.vio Base/Layout.vio Gen/Consts.vio Gen/Layouts.vio Gen/VmdkTables.vio
+Model/Vmdk.vos Model/Vmdk.vok Model/Vmdk.required_vos: Model/Vmdk.v Base/Arith.vos Base/Plan.vos Base/Table.vos Base/Layout.vos Gen/Consts.vos Gen/Layouts.vos Gen/VmdkTables.vos
+Model/VmdkDesc.vo Model/VmdkDesc.glob Model/VmdkDesc.v.beautified Model/VmdkDesc.required_vo: Model/VmdkDesc.v Base/Arith.vo Base/Plan.vo Base/Table.vo Model/Vmdk.vo Gen/VmdkTables.vo
+Model/VmdkDesc.vio: Model/VmdkDesc.v Base/Arith.vio Base/Plan.vio Base/Table.vio Model/Vmdk.vio Gen/VmdkTables.vio
+Model/VmdkDesc.vos Model/VmdkDesc.vok Model/VmdkDesc.required_vos: Model/VmdkDesc.v Base/Arith.vos Base/Plan.vos Base/Table.vos Model/Vmdk.vos Gen/VmdkTables.vos
+Model/Vmx.vo Model/Vmx.glob Model/Vmx.v.beautified Model/Vmx.required_vo: Model/Vmx.v Model/Text.vo Model/XmlTree.vo Gen/DescTables.vo
+Model/Vmx.vio: Model/Vmx.v Model/Text.vio Model/XmlTree.vio Gen/DescTables.vio
+Model/Vmx.vos Model/Vmx.vok Model/Vmx.required_vos: Model/Vmx.v Model/Text.vos Model/XmlTree.vos Gen/DescTables.vos
+Model/VmxCrypto.vo Model/VmxCrypto.glob Model/VmxCrypto.v.beautified Model/VmxCrypto.required_vo: Model/VmxCrypto.v Gen/Consts.vo
+Model/VmxCrypto.vio: Model/VmxCrypto.v Gen/Consts.vio
+Model/VmxCrypto.vos Model/VmxCrypto.vok Model/VmxCrypto.required_vos: Model/VmxCrypto.v Gen/Consts.vos
+Model/Walk.vo Model/Walk.glob Model/Walk.v.beautified Model/Walk.required_vo: Model/Walk.v Base/Plan.vo
+Model/Walk.vio: Model/Walk.v Base/Plan.vio
+Model/Walk.vos Model/Walk.vok Model/Walk.required_vos: Model/Walk.v Base/Plan.vos
+Model/XmlDesc.vo Model/XmlDesc.glob Model/XmlDesc.v.beautified Model/XmlDesc.required_vo: Model/XmlDesc.v Base/Plan.vo Model/Text.vo Model/XmlTree.vo Gen/DescTables.vo
+Model/XmlDesc.vio: Model/XmlDesc.v Base/Plan.vio Model/Text.vio Model/XmlTree.vio Gen/DescTables.vio
+Model/XmlDesc.vos Model/XmlDesc.vok Model/XmlDesc.required_vos: Model/XmlDesc.v Base/Plan.vos Model/Text.vos Model/XmlTree.vos Gen/DescTables.vos
+Model/XmlEntry.vo Model/XmlEntry.glob Model/XmlEntry.v.beautified Model/XmlEntry.required_vo: Model/XmlEntry.v 
+Model/XmlEntry.vio: Model/XmlEntry.v 
+Model/XmlEntry.vos Model/XmlEntry.vok Model/XmlEntry.required_vos: Model/XmlEntry.v 
+Model/XmlPredict.vo Model/XmlPredict.glob Model/XmlPredict.v.beautified Model/XmlPredict.required_vo: Model/XmlPredict.v Model/XmlEntry.vo Gen/XmlSites.vo
+Model/XmlPredict.vio: Model/XmlPredict.v Model/XmlEntry.vio Gen/XmlSites.vio
+Model/XmlPredict.vos Model/XmlPredict.vok Model/XmlPredict.required_vos: Model/XmlPredict.v Model/XmlEntry.vos Gen/XmlSites.vos
+Model/XmlTree.vo Model/XmlTree.glob Model/XmlTree.v.beautified Model/XmlTree.required_vo: Model/XmlTree.v Model/Text.vo
+Model/XmlTree.vio: Model/XmlTree.v Model/Text.vio
+Model/XmlTree.vos Model/XmlTree.vok Model/XmlTree.required_vos: Model/XmlTree.v Model/Text.vos
+Proofs/AlignedStream.vo Proofs/AlignedStream.glob Proofs/AlignedStream.v.beautified Proofs/AlignedStream.required_vo: Proofs/AlignedStream.v Base/Arith.vo Base/Plan.vo Model/AlignedStream.vo
+Proofs/AlignedStream.vio: Proofs/AlignedStream.v Base/Arith.vio Base/Plan.vio Model/AlignedStream.vio
+Proofs/AlignedStream.vos Proofs/AlignedStream.vok Proofs/AlignedStream.required_vos: Proofs/AlignedStream.v Base/Arith.vos Base/Plan.vos Model/AlignedStream.vos
+Proofs/AlignedStreamB.vo Proofs/AlignedStreamB.glob Proofs/AlignedStreamB.v.beautified Proofs/AlignedStreamB.required_vo: Proofs/AlignedStreamB.v Base/Arith.vo Base/Plan.vo Model/AlignedStream.vo Model/AlignedStreamB.vo Proofs/AlignedStream.vo Proofs/BlockMapped.vo
+Proofs/AlignedStreamB.vio: Proofs/AlignedStreamB.v Base/Arith.vio Base/Plan.vio Model/AlignedStream.vio Model/AlignedStreamB.vio Proofs/AlignedStream.vio Proofs/BlockMapped.vio
+Proofs/AlignedStreamB.vos Proofs/AlignedStreamB.vok Proofs/AlignedStreamB.required_vos: Proofs/AlignedStreamB.v Base/Arith.vos Base/Plan.vos Model/AlignedStream.vos Model/AlignedStreamB.vos Proofs/AlignedStream.vos Proofs/BlockMapped.vos
+Proofs/BlockMapped.vo Proofs/BlockMapped.glob Proofs/BlockMapped.v.beautified Proofs/BlockMapped.required_vo: Proofs/BlockMapped.v Base/Arith.vo Base/Plan.vo Model/Walk.vo
+Proofs/BlockMapped.vio: Proofs/BlockMapped.v Base/Arith.vio Base/Plan.vio Model/Walk.vio
+Proofs/BlockMapped.vos Proofs/BlockMapped.vok Proofs/BlockMapped.required_vos: Proofs/BlockMapped.v Base/Arith.vos Base/Plan.vos Model/Walk.vos
+Proofs/Chain.vo Proofs/Chain.glob Proofs/Chain.v.beautified Proofs/Chain.required_vo: Proofs/Chain.v Base/Plan.vo Model/Chain.vo
+Proofs/Chain.vio: Proofs/Chain.v Base/Plan.vio Model/Chain.vio
+Proofs/Chain.vos Proofs/Chain.vok Proofs/Chain.required_vos: Proofs/Chain.v Base/Plan.vos Model/Chain.vos
+Proofs/Effects.vo Proofs/Effects.glob Proofs/Effects.v.beautified Proofs/Effects.required_vo: Proofs/Effects.v Gen/Effects.vo Model/Effects.vo
+Proofs/Effects.vio: Proofs/Effects.v Gen/Effects.vio Model/Effects.vio
+Proofs/Effects.vos Proofs/Effects.vok Proofs/Effects.required_vos: Proofs/Effects.v Gen/Effects.vos Model/Effects.vos
+Proofs/EnvKeystore.vo Proofs/EnvKeystore.glob Proofs/EnvKeystore.v.beautified Proofs/EnvKeystore.required_vo: Proofs/EnvKeystore.v Base/Plan.vo Model/Envelope.vo Model/EnvKeystore.vo Proofs/Envelope.vo
+Proofs/EnvKeystore.vio: Proofs/EnvKeystore.v Base/Plan.vio Model/Envelope.vio Model/EnvKeystore.vio Proofs/Envelope.vio
+Proofs/EnvKeystore.vos Proofs/EnvKeystore.vok Proofs/EnvKeystore.required_vos: Proofs/EnvKeystore.v Base/Plan.vos Model/Envelope.vos Model/EnvKeystore.vos Proofs/Envelope.vos
+Proofs/Envelope.vo Proofs/Envelope.glob Proofs/Envelope.v.beautified Proofs/Envelope.required_vo: Proofs/Envelope.v Base/Plan.vo Base/Table.vo Base/Layout.vo Model/Envelope.vo Gen/Consts.vo Gen/Layouts.vo Gen/Enums.vo Gen/EnvelopeTables.vo
+Proofs/Envelope.vio: Proofs/Envelope.v Base/Plan.vio Base/Table.vio Base/Layout.vio Model/Envelope.vio Gen/Consts.vio Gen/Layouts.vio Gen/Enums.vio Gen/EnvelopeTables.vio
+Proofs/Envelope.vos Proofs/Envelope.vok Proofs/Envelope.required_vos: Proofs/Envelope.v Base/Plan.vos Base/Table.vos Base/Layout.vos Model/Envelope.vos Gen/Consts.vos Gen/Layouts.vos Gen/Enums.vos Gen/EnvelopeTables.vos
+Proofs/Gates.vo Proofs/Gates.glob Proofs/Gates.v.beautified Proofs/Gates.required_vo: Proofs/Gates.v Base/Plan.vo Model/Gates.vo Gen/Consts.vo Gen/Gates.vo
+Proofs/Gates.vio: Proofs/Gates.v Base/Plan.vio Model/Gates.vio Gen/Consts.vio Gen/Gates.vio
+Proofs/Gates.vos Proofs/Gates.vok Proofs/Gates.required_vos: Proofs/Gates.v Base/Plan.vos Model/Gates.vos Gen/Consts.vos Gen/Gates.vos
+Proofs/Hds.vo Proofs/Hds.glob Proofs/Hds.v.beautified Proofs/Hds.required_vo: Proofs/Hds.v Base/Arith.vo Base/Plan.vo Base/Table.vo Model/Hds.vo Proofs/BlockMapped.vo
+Proofs/Hds.vio: Proofs/Hds.v Base/Arith.vio Base/Plan.vio Base/Table.vio Model/Hds.vio Proofs/BlockMapped.vio
+Proofs/Hds.vos Proofs/Hds.vok Proofs/Hds.required_vos: Proofs/Hds.v Base/Arith.vos Base/Plan.vos Base/Table.vos Model/Hds.vos Proofs/BlockMapped.vos
+Proofs/HyperV.vo Proofs/HyperV.glob Proofs/HyperV.v.beautified Proofs/HyperV.required_vo: Proofs/HyperV.v Base/Arith.vo Base/Plan.vo Base/Layout.vo Base/Table.vo Model/HyperV.vo Spec/HyperV.vo
+Proofs/HyperV.vio: Proofs/HyperV.v Base/Arith.vio Base/Plan.vio Base/Layout.vio Base/Table.vio Model/HyperV.vio Spec/HyperV.vio
+Proofs/HyperV.vos Proofs/HyperV.vok Proofs/HyperV.required_vos: Proofs/HyperV.v Base/Arith.vos Base/Plan.vos Base/Layout.vos Base/Table.vos Model/HyperV.vos Spec/HyperV.vos
+Proofs/Io.vo Proofs/Io.glob Proofs/Io.v.beautified Proofs/Io.required_vo: Proofs/Io.v Base/Arith.vo Base/Plan.vo Base/Table.vo Model/Walk.vo Model/Io.vo Proofs/BlockMapped.vo Model/Vhd.vo Proofs/Vhd.vo Model/Vdi.vo Proofs/Vdi.vo Model/Vhdx.vo Proofs/Vhdx.vo Model/Hds.vo Proofs/Hds.vo Proofs/StreamReaders.vo
+Proofs/Io.vio: Proofs/Io.v Base/Arith.vio Base/Plan.vio Base/Table.vio Model/Walk.vio Model/Io.vio Proofs/BlockMapped.vio Model/Vhd.vio Proofs/Vhd.vio Model/Vdi.vio Proofs/Vdi.vio Model/Vhdx.vio Proofs/Vhdx.vio Model/Hds.vio Proofs/Hds.vio Proofs/StreamReaders.vio
+Proofs/Io.vos Proofs/Io.vok Proofs/Io.required_vos: Proofs/Io.v Base/Arith.vos Base/Plan.vos Base/Table.vos Model/Walk.vos Model/Io.vos Proofs/BlockMapped.vos Model/Vhd.vos Proofs/Vhd.vos Model/Vdi.vos Proofs/Vdi.vos Model/Vhdx.vos Proofs/Vhdx.vos Model/Hds.vos Proofs/Hds.vos Proofs/StreamReaders.vos
+Proofs/Layers.vo Proofs/Layers.glob Proofs/Layers.v.beautified Proofs/Layers.required_vo: Proofs/Layers.v Base/Arith.vo Base/Plan.vo Base/Table.vo Model/Walk.vo Proofs/BlockMapped.vo Model/Chain.vo Proofs/Chain.vo Model/Vdi.vo Proofs/Vdi.vo Model/Hds.vo Proofs/Hds.vo Model/Vhdx.vo Proofs/Vhdx.vo Proofs/VhdxPartial.vo Proofs/VhdxLayer.vo Model/Qcow2.vo Proofs/Qcow2.vo Proofs/Qcow2Total.vo Spec/Qcow2.vo
+Proofs/Layers.vio: Proofs/Layers.v Base/Arith.vio Base/Plan.vio Base/Table.vio Model/Walk.vio Proofs/BlockMapped.vio Model/Chain.vio Proofs/Chain.vio Model/Vdi.vio Proofs/Vdi.vio Model/Hds.vio Proofs/Hds.vio Model/Vhdx.vio Proofs/Vhdx.vio Proofs/VhdxPartial.vio Proofs/VhdxLayer.vio Model/Qcow2.vio Proofs/Qcow2.vio Proofs/Qcow2Total.vio Spec/Qcow2.vio
+Proofs/Layers.vos Proofs/Layers.vok Proofs/Layers.required_vos: Proofs/Layers.v Base/Arith.vos Base/Plan.vos Base/Table.vos Model/Walk.vos Proofs/BlockMapped.vos Model/Chain.vos Proofs/Chain.vos Model/Vdi.vos Proofs/Vdi.vos Model/Hds.vos Proofs/Hds.vos Model/Vhdx.vos Proofs/Vhdx.vos Proofs/VhdxPartial.vos Proofs/VhdxLayer.vos Model/Qcow2.vos Proofs/Qcow2.vos Proofs/Qcow2Total.vos Spec/Qcow2.vos
+Proofs/Lru.vo Proofs/Lru.glob Proofs/Lru.v.beautified Proofs/Lru.required_vo: Proofs/Lru.v Model/Lru.vo
+Proofs/Lru.vio: Proofs/Lru.v Model/Lru.vio
+Proofs/Lru.vos Proofs/Lru.vok Proofs/Lru.required_vos: Proofs/Lru.v Model/Lru.vos
 Proofs/MetaCodec.vo Proofs/MetaCodec.glob Proofs/MetaCodec.v.beautified Proofs/MetaCodec.required_vo: Proofs/MetaCodec.v Base/Arith.vo Base/Plan.vo Base/Layout.vo Gen/Consts.vo Gen/Layouts.vo Model/MetaCodec.vo Model/MetaHdrs.vo
 Proofs/MetaCodec.vio: Proofs/MetaCodec.v Base/Arith.vio Base/Plan.vio Base/Layout.vio Gen/Consts.vio Gen/Layouts.vio Model/MetaCodec.vio Model/MetaHdrs.vio
 Proofs/MetaCodec.vos Proofs/MetaCodec.vok Proofs/MetaCodec.required_vos: Proofs/MetaCodec.v Base/Arith.vos Base/Plan.vos Base/Layout.vos Gen/Consts.vos Gen/Layouts.vos Model/MetaCodec.vos Model/MetaHdrs.vos
@@ -76,12 +232,129 @@ Proofs/MetaVmdk.vos Proofs/MetaVmdk.vok Proofs/MetaVmdk.required_vos: Proofs/Met
 Proofs/MetaVmdkExt.vo Proofs/MetaVmdkExt.glob Proofs/MetaVmdkExt.v.beautified Proofs/MetaVmdkExt.required_vo: Proofs/MetaVmdkExt.v Base/Plan.vo Gen/MetaVmdkTables.vo Model/MetaCodec.vo Model/MetaVmdk.vo Proofs/MetaVmdk.vo
 Proofs/MetaVmdkExt.vio: Proofs/MetaVmdkExt.v Base/Plan.vio Gen/MetaVmdkTables.vio Model/MetaCodec.vio Model/MetaVmdk.vio Proofs/MetaVmdk.vio
 Proofs/MetaVmdkExt.vos Proofs/MetaVmdkExt.vok Proofs/MetaVmdkExt.required_vos: Proofs/MetaVmdkExt.v Base/Plan.vos Gen/MetaVmdkTables.vos Model/MetaCodec.vos Model/MetaVmdk.vos Proofs/MetaVmdk.vos
+Proofs/OpenParent.vo Proofs/OpenParent.glob Proofs/OpenParent.v.beautified Proofs/OpenParent.required_vo: Proofs/OpenParent.v Base/Plan.vo Model/OpenParent.vo
+Proofs/OpenParent.vio: Proofs/OpenParent.v Base/Plan.vio Model/OpenParent.vio
+Proofs/OpenParent.vos Proofs/OpenParent.vok Proofs/OpenParent.required_vos: Proofs/OpenParent.v Base/Plan.vos Model/OpenParent.vos
+Proofs/Qcow2.vo Proofs/Qcow2.glob Proofs/Qcow2.v.beautified Proofs/Qcow2.required_vo: Proofs/Qcow2.v Base/Arith.vo Base/Plan.vo Base/Table.vo Gen/Consts.vo Gen/Enums.vo Gen/Qcow2Fun.vo Spec/Qcow2.vo Model/Qcow2.vo Proofs/Qcow2Bits.vo Proofs/Qcow2Class.vo
+Proofs/Qcow2.vio: Proofs/Qcow2.v Base/Arith.vio Base/Plan.vio Base/Table.vio Gen/Consts.vio Gen/Enums.vio Gen/Qcow2Fun.vio Spec/Qcow2.vio Model/Qcow2.vio Proofs/Qcow2Bits.vio Proofs/Qcow2Class.vio
+Proofs/Qcow2.vos Proofs/Qcow2.vok Proofs/Qcow2.required_vos: Proofs/Qcow2.v Base/Arith.vos Base/Plan.vos Base/Table.vos Gen/Consts.vos Gen/Enums.vos Gen/Qcow2Fun.vos Spec/Qcow2.vos Model/Qcow2.vos Proofs/Qcow2Bits.vos Proofs/Qcow2Class.vos
+Proofs/Qcow2Bits.vo Proofs/Qcow2Bits.glob Proofs/Qcow2Bits.v.beautified Proofs/Qcow2Bits.required_vo: Proofs/Qcow2Bits.v Base/Arith.vo Base/Plan.vo Base/Table.vo Gen/Consts.vo Gen/Enums.vo Gen/Qcow2Fun.vo Spec/Qcow2.vo Model/Qcow2.vo
+Proofs/Qcow2Bits.vio: Proofs/Qcow2Bits.v Base/Arith.vio Base/Plan.vio Base/Table.vio Gen/Consts.vio Gen/Enums.vio Gen/Qcow2Fun.vio Spec/Qcow2.vio Model/Qcow2.vio
+Proofs/Qcow2Bits.vos Proofs/Qcow2Bits.vok Proofs/Qcow2Bits.required_vos: Proofs/Qcow2Bits.v Base/Arith.vos Base/Plan.vos Base/Table.vos Gen/Consts.vos Gen/Enums.vos Gen/Qcow2Fun.vos Spec/Qcow2.vos Model/Qcow2.vos
+Proofs/Qcow2Class.vo Proofs/Qcow2Class.glob Proofs/Qcow2Class.v.beautified Proofs/Qcow2Class.required_vo: Proofs/Qcow2Class.v Base/Arith.vo Base/Plan.vo Base/Table.vo Gen/Consts.vo Gen/Enums.vo Gen/Qcow2Fun.vo Spec/Qcow2.vo Model/Qcow2.vo Proofs/Qcow2Bits.vo
+Proofs/Qcow2Class.vio: Proofs/Qcow2Class.v Base/Arith.vio Base/Plan.vio Base/Table.vio Gen/Consts.vio Gen/Enums.vio Gen/Qcow2Fun.vio Spec/Qcow2.vio Model/Qcow2.vio Proofs/Qcow2Bits.vio
+Proofs/Qcow2Class.vos Proofs/Qcow2Class.vok Proofs/Qcow2Class.required_vos: Proofs/Qcow2Class.v Base/Arith.vos Base/Plan.vos Base/Table.vos Gen/Consts.vos Gen/Enums.vos Gen/Qcow2Fun.vos Spec/Qcow2.vos Model/Qcow2.vos Proofs/Qcow2Bits.vos
+Proofs/Qcow2Total.vo Proofs/Qcow2Total.glob Proofs/Qcow2Total.v.beautified Proofs/Qcow2Total.required_vo: Proofs/Qcow2Total.v Base/Arith.vo Base/Plan.vo Base/Table.vo Gen/Consts.vo Gen/Enums.vo Gen/Qcow2Fun.vo Spec/Qcow2.vo Model/Qcow2.vo Proofs/Qcow2Bits.vo Proofs/Qcow2Class.vo Proofs/Qcow2.vo
+Proofs/Qcow2Total.vio: Proofs/Qcow2Total.v Base/Arith.vio Base/Plan.vio Base/Table.vio Gen/Consts.vio Gen/Enums.vio Gen/Qcow2Fun.vio Spec/Qcow2.vio Model/Qcow2.vio Proofs/Qcow2Bits.vio Proofs/Qcow2Class.vio Proofs/Qcow2.vio
+Proofs/Qcow2Total.vos Proofs/Qcow2Total.vok Proofs/Qcow2Total.required_vos: Proofs/Qcow2Total.v Base/Arith.vos Base/Plan.vos Base/Table.vos Gen/Consts.vos Gen/Enums.vos Gen/Qcow2Fun.vos Spec/Qcow2.vos Model/Qcow2.vos Proofs/Qcow2Bits.vos Proofs/Qcow2Class.vos Proofs/Qcow2.vos
+Proofs/SnapChain.vo Proofs/SnapChain.glob Proofs/SnapChain.v.beautified Proofs/SnapChain.required_vo: Proofs/SnapChain.v Base/Plan.vo Model/SnapChain.vo
+Proofs/SnapChain.vio: Proofs/SnapChain.v Base/Plan.vio Model/SnapChain.vio
+Proofs/SnapChain.vos Proofs/SnapChain.vok Proofs/SnapChain.required_vos: Proofs/SnapChain.v Base/Plan.vos Model/SnapChain.vos
+Proofs/StreamBytes.vo Proofs/StreamBytes.glob Proofs/StreamBytes.v.beautified Proofs/StreamBytes.required_vo: Proofs/StreamBytes.v Base/Arith.vo Base/Plan.vo Model/AlignedStream.vo Model/AlignedStreamB.vo Proofs/AlignedStream.vo Proofs/AlignedStreamB.vo Proofs/BlockMapped.vo Proofs/StreamReaders.vo
+Proofs/StreamBytes.vio: Proofs/StreamBytes.v Base/Arith.vio Base/Plan.vio Model/AlignedStream.vio Model/AlignedStreamB.vio Proofs/AlignedStream.vio Proofs/AlignedStreamB.vio Proofs/BlockMapped.vio Proofs/StreamReaders.vio
+Proofs/StreamBytes.vos Proofs/StreamBytes.vok Proofs/StreamBytes.required_vos: Proofs/StreamBytes.v Base/Arith.vos Base/Plan.vos Model/AlignedStream.vos Model/AlignedStreamB.vos Proofs/AlignedStream.vos Proofs/AlignedStreamB.vos Proofs/BlockMapped.vos Proofs/StreamReaders.vos
+Proofs/StreamReaders.vo Proofs/StreamReaders.glob Proofs/StreamReaders.v.beautified Proofs/StreamReaders.required_vo: Proofs/StreamReaders.v Base/Arith.vo Base/Plan.vo Base/Table.vo Model/AlignedStream.vo Proofs/AlignedStream.vo Model/Walk.vo Proofs/BlockMapped.vo Model/Vhd.vo Proofs/Vhd.vo Model/Vdi.vo Proofs/Vdi.vo Model/Vhdx.vo Proofs/Vhdx.vo Model/Hds.vo Proofs/Hds.vo Model/Qcow2.vo Proofs/Qcow2.vo Proofs/Qcow2Total.vo Spec/Qcow2.vo
+Proofs/StreamReaders.vio: Proofs/StreamReaders.v Base/Arith.vio Base/Plan.vio Base/Table.vio Model/AlignedStream.vio Proofs/AlignedStream.vio Model/Walk.vio Proofs/BlockMapped.vio Model/Vhd.vio Proofs/Vhd.vio Model/Vdi.vio Proofs/Vdi.vio Model/Vhdx.vio Proofs/Vhdx.vio Model/Hds.vio Proofs/Hds.vio Model/Qcow2.vio Proofs/Qcow2.vio Proofs/Qcow2Total.vio Spec/Qcow2.vio
+Proofs/StreamReaders.vos Proofs/StreamReaders.vok Proofs/StreamReaders.required_vos: Proofs/StreamReaders.v Base/Arith.vos Base/Plan.vos Base/Table.vos Model/AlignedStream.vos Proofs/AlignedStream.vos Model/Walk.vos Proofs/BlockMapped.vos Model/Vhd.vos Proofs/Vhd.vos Model/Vdi.vos Proofs/Vdi.vos Model/Vhdx.vos Proofs/Vhdx.vos Model/Hds.vos Proofs/Hds.vos Model/Qcow2.vos Proofs/Qcow2.vos Proofs/Qcow2Total.vos Spec/Qcow2.vos
+Proofs/Text.vo Proofs/Text.glob Proofs/Text.v.beautified Proofs/Text.required_vo: Proofs/Text.v Model/Text.vo
+Proofs/Text.vio: Proofs/Text.v Model/Text.vio
+Proofs/Text.vos Proofs/Text.vok Proofs/Text.required_vos: Proofs/Text.v Model/Text.vos
+Proofs/Vdi.vo Proofs/Vdi.glob Proofs/Vdi.v.beautified Proofs/Vdi.required_vo: Proofs/Vdi.v Base/Arith.vo Base/Plan.vo Base/Table.vo Model/Walk.vo Model/Vdi.vo Proofs/BlockMapped.vo
+Proofs/Vdi.vio: Proofs/Vdi.v Base/Arith.vio Base/Plan.vio Base/Table.vio Model/Walk.vio Model/Vdi.vio Proofs/BlockMapped.vio
+Proofs/Vdi.vos Proofs/Vdi.vok Proofs/Vdi.required_vos: Proofs/Vdi.v Base/Arith.vos Base/Plan.vos Base/Table.vos Model/Walk.vos Model/Vdi.vos Proofs/BlockMapped.vos
 Proofs/Vhd.vo Proofs/Vhd.glob Proofs/Vhd.v.beautified Proofs/Vhd.required_vo: Proofs/Vhd.v Base/Arith.vo Base/Plan.vo Base/Table.vo Model/Vhd.vo
 Proofs/Vhd.vio: Proofs/Vhd.v Base/Arith.vio Base/Plan.vio Base/Table.vio Model/Vhd.vio
 Proofs/Vhd.vos Proofs/Vhd.vok Proofs/Vhd.required_vos: Proofs/Vhd.v Base/Arith.vos Base/Plan.vos Base/Table.vos Model/Vhd.vos
+Proofs/Vhdx.vo Proofs/Vhdx.glob Proofs/Vhdx.v.beautified Proofs/Vhdx.required_vo: Proofs/Vhdx.v Base/Arith.vo Base/Plan.vo Base/Table.vo Base/Layout.vo Model/Walk.vo Model/Vhdx.vo Proofs/BlockMapped.vo Gen/Layouts.vo
+Proofs/Vhdx.vio: Proofs/Vhdx.v Base/Arith.vio Base/Plan.vio Base/Table.vio Base/Layout.vio Model/Walk.vio Model/Vhdx.vio Proofs/BlockMapped.vio Gen/Layouts.vio
+Proofs/Vhdx.vos Proofs/Vhdx.vok Proofs/Vhdx.required_vos: Proofs/Vhdx.v Base/Arith.vos Base/Plan.vos Base/Table.vos Base/Layout.vos Model/Walk.vos Model/Vhdx.vos Proofs/BlockMapped.vos Gen/Layouts.vos
+Proofs/VhdxLayer.vo Proofs/VhdxLayer.glob Proofs/VhdxLayer.v.beautified Proofs/VhdxLayer.required_vo: Proofs/VhdxLayer.v Base/Arith.vo Base/Plan.vo Base/Table.vo Model/Walk.vo Proofs/BlockMapped.vo Model/Vhdx.vo Proofs/Vhdx.vo Proofs/VhdxPartial.vo Model/Chain.vo Proofs/Chain.vo
+Proofs/VhdxLayer.vio: Proofs/VhdxLayer.v Base/Arith.vio Base/Plan.vio Base/Table.vio Model/Walk.vio Proofs/BlockMapped.vio Model/Vhdx.vio Proofs/Vhdx.vio Proofs/VhdxPartial.vio Model/Chain.vio Proofs/Chain.vio
+Proofs/VhdxLayer.vos Proofs/VhdxLayer.vok Proofs/VhdxLayer.required_vos: Proofs/VhdxLayer.v Base/Arith.vos Base/Plan.vos Base/Table.vos Model/Walk.vos Proofs/BlockMapped.vos Model/Vhdx.vos Proofs/Vhdx.vos Proofs/VhdxPartial.vos Model/Chain.vos Proofs/Chain.vos
+Proofs/VhdxPartial.vo Proofs/VhdxPartial.glob Proofs/VhdxPartial.v.beautified Proofs/VhdxPartial.required_vo: Proofs/VhdxPartial.v Base/Arith.vo Base/Plan.vo Base/Table.vo Model/Vhdx.vo
+Proofs/VhdxPartial.vio: Proofs/VhdxPartial.v Base/Arith.vio Base/Plan.vio Base/Table.vio Model/Vhdx.vio
+Proofs/VhdxPartial.vos Proofs/VhdxPartial.vok Proofs/VhdxPartial.required_vos: Proofs/VhdxPartial.v Base/Arith.vos Base/Plan.vos Base/Table.vos Model/Vhdx.vos
+Proofs/VmTar.vo Proofs/VmTar.glob Proofs/VmTar.v.beautified Proofs/VmTar.required_vo: Proofs/VmTar.v Base/Layout.vo Spec/VmTar.vo Model/VmTar.vo Gen/VmTar.vo Base/Arith.vo
+Proofs/VmTar.vio: Proofs/VmTar.v Base/Layout.vio Spec/VmTar.vio Model/VmTar.vio Gen/VmTar.vio Base/Arith.vio
+Proofs/VmTar.vos Proofs/VmTar.vok Proofs/VmTar.required_vos: Proofs/VmTar.v Base/Layout.vos Spec/VmTar.vos Model/VmTar.vos Gen/VmTar.vos Base/Arith.vos
+Proofs/Vmdk.vo Proofs/Vmdk.glob Proofs/Vmdk.v.beautified Proofs/Vmdk.required_vo: Proofs/Vmdk.v Base/Arith.vo Base/Plan.vo Base/Table.vo Base/Layout.vo Model/Vmdk.vo
+Proofs/Vmdk.vio: Proofs/Vmdk.v Base/Arith.vio Base/Plan.vio Base/Table.vio Base/Layout.vio Model/Vmdk.vio
+Proofs/Vmdk.vos Proofs/Vmdk.vok Proofs/Vmdk.required_vos: Proofs/Vmdk.v Base/Arith.vos Base/Plan.vos Base/Table.vos Base/Layout.vos Model/Vmdk.vos
+Proofs/VmdkDesc.vo Proofs/VmdkDesc.glob Proofs/VmdkDesc.v.beautified Proofs/VmdkDesc.required_vo: Proofs/VmdkDesc.v Base/Arith.vo Base/Plan.vo Base/Table.vo Model/Vmdk.vo Model/VmdkDesc.vo Proofs/Vmdk.vo
+Proofs/VmdkDesc.vio: Proofs/VmdkDesc.v Base/Arith.vio Base/Plan.vio Base/Table.vio Model/Vmdk.vio Model/VmdkDesc.vio Proofs/Vmdk.vio
+Proofs/VmdkDesc.vos Proofs/VmdkDesc.vok Proofs/VmdkDesc.required_vos: Proofs/VmdkDesc.v Base/Arith.vos Base/Plan.vos Base/Table.vos Model/Vmdk.vos Model/VmdkDesc.vos Proofs/Vmdk.vos
+Proofs/Vmx.vo Proofs/Vmx.glob Proofs/Vmx.v.beautified Proofs/Vmx.required_vo: Proofs/Vmx.v Model/Text.vo Model/XmlTree.vo Gen/DescTables.vo Model/Vmx.vo Proofs/Text.vo
+Proofs/Vmx.vio: Proofs/Vmx.v Model/Text.vio Model/XmlTree.vio Gen/DescTables.vio Model/Vmx.vio Proofs/Text.vio
+Proofs/Vmx.vos Proofs/Vmx.vok Proofs/Vmx.required_vos: Proofs/Vmx.v Model/Text.vos Model/XmlTree.vos Gen/DescTables.vos Model/Vmx.vos Proofs/Text.vos
+Proofs/VmxCodec.vo Proofs/VmxCodec.glob Proofs/VmxCodec.v.beautified Proofs/VmxCodec.required_vo: Proofs/VmxCodec.v Base/Plan.vo Model/VmxCrypto.vo Proofs/VmxCrypto.vo
+Proofs/VmxCodec.vio: Proofs/VmxCodec.v Base/Plan.vio Model/VmxCrypto.vio Proofs/VmxCrypto.vio
+Proofs/VmxCodec.vos Proofs/VmxCodec.vok Proofs/VmxCodec.required_vos: Proofs/VmxCodec.v Base/Plan.vos Model/VmxCrypto.vos Proofs/VmxCrypto.vos
+Proofs/VmxCrypto.vo Proofs/VmxCrypto.glob Proofs/VmxCrypto.v.beautified Proofs/VmxCrypto.required_vo: Proofs/VmxCrypto.v Model/VmxCrypto.vo
+Proofs/VmxCrypto.vio: Proofs/VmxCrypto.v Model/VmxCrypto.vio
+Proofs/VmxCrypto.vos Proofs/VmxCrypto.vok Proofs/VmxCrypto.required_vos: Proofs/VmxCrypto.v Model/VmxCrypto.vos
+Proofs/XmlDesc.vo Proofs/XmlDesc.glob Proofs/XmlDesc.v.beautified Proofs/XmlDesc.required_vo: Proofs/XmlDesc.v Base/Plan.vo Model/Text.vo Model/XmlTree.vo Gen/DescTables.vo Model/XmlDesc.vo Proofs/Text.vo
+Proofs/XmlDesc.vio: Proofs/XmlDesc.v Base/Plan.vio Model/Text.vio Model/XmlTree.vio Gen/DescTables.vio Model/XmlDesc.vio Proofs/Text.vio
+Proofs/XmlDesc.vos Proofs/XmlDesc.vok Proofs/XmlDesc.required_vos: Proofs/XmlDesc.v Base/Plan.vos Model/Text.vos Model/XmlTree.vos Gen/DescTables.vos Model/XmlDesc.vos Proofs/Text.vos
+Proofs/XmlEntry.vo Proofs/XmlEntry.glob Proofs/XmlEntry.v.beautified Proofs/XmlEntry.required_vo: Proofs/XmlEntry.v Model/XmlEntry.vo Gen/XmlSites.vo
+Proofs/XmlEntry.vio: Proofs/XmlEntry.v Model/XmlEntry.vio Gen/XmlSites.vio
+Proofs/XmlEntry.vos Proofs/XmlEntry.vok Proofs/XmlEntry.required_vos: Proofs/XmlEntry.v Model/XmlEntry.vos Gen/XmlSites.vos
+Props/C01.vo Props/C01.glob Props/C01.v.beautified Props/C01.required_vo: Props/C01.v Base/Plan.vo Base/Table.vo Gen/Consts.vo Gen/Qcow2Fun.vo Spec/Qcow2.vo Model/Qcow2.vo Proofs/Qcow2Bits.vo Proofs/Qcow2Class.vo Proofs/Qcow2.vo Proofs/Qcow2Total.vo
+Props/C01.vio: Props/C01.v Base/Plan.vio Base/Table.vio Gen/Consts.vio Gen/Qcow2Fun.vio Spec/Qcow2.vio Model/Qcow2.vio Proofs/Qcow2Bits.vio Proofs/Qcow2Class.vio Proofs/Qcow2.vio Proofs/Qcow2Total.vio
+Props/C01.vos Props/C01.vok Props/C01.required_vos: Props/C01.v Base/Plan.vos Base/Table.vos Gen/Consts.vos Gen/Qcow2Fun.vos Spec/Qcow2.vos Model/Qcow2.vos Proofs/Qcow2Bits.vos Proofs/Qcow2Class.vos Proofs/Qcow2.vos Proofs/Qcow2Total.vos
+Props/C02.vo Props/C02.glob Props/C02.v.beautified Props/C02.required_vo: Props/C02.v Base/Plan.vo Base/Table.vo Model/Vmdk.vo Proofs/Vmdk.vo
+Props/C02.vio: Props/C02.v Base/Plan.vio Base/Table.vio Model/Vmdk.vio Proofs/Vmdk.vio
+Props/C02.vos Props/C02.vok Props/C02.required_vos: Props/C02.v Base/Plan.vos Base/Table.vos Model/Vmdk.vos Proofs/Vmdk.vos
+Props/C03.vo Props/C03.glob Props/C03.v.beautified Props/C03.required_vo: Props/C03.v Base/Plan.vo Base/Table.vo Model/Vhdx.vo Proofs/Vhdx.vo
+Props/C03.vio: Props/C03.v Base/Plan.vio Base/Table.vio Model/Vhdx.vio Proofs/Vhdx.vio
+Props/C03.vos Props/C03.vok Props/C03.required_vos: Props/C03.v Base/Plan.vos Base/Table.vos Model/Vhdx.vos Proofs/Vhdx.vos
 Props/C04.vo Props/C04.glob Props/C04.v.beautified Props/C04.required_vo: Props/C04.v Base/Plan.vo Base/Table.vo Model/Vhd.vo Proofs/Vhd.vo
 Props/C04.vio: Props/C04.v Base/Plan.vio Base/Table.vio Model/Vhd.vio Proofs/Vhd.vio
 Props/C04.vos Props/C04.vok Props/C04.required_vos: Props/C04.v Base/Plan.vos Base/Table.vos Model/Vhd.vos Proofs/Vhd.vos
+Props/C05.vo Props/C05.glob Props/C05.v.beautified Props/C05.required_vo: Props/C05.v Base/Plan.vo Base/Table.vo Model/Vdi.vo Proofs/Vdi.vo
+Props/C05.vio: Props/C05.v Base/Plan.vio Base/Table.vio Model/Vdi.vio Proofs/Vdi.vio
+Props/C05.vos Props/C05.vok Props/C05.required_vos: Props/C05.v Base/Plan.vos Base/Table.vos Model/Vdi.vos Proofs/Vdi.vos
+Props/C06.vo Props/C06.glob Props/C06.v.beautified Props/C06.required_vo: Props/C06.v Base/Plan.vo Base/Table.vo Model/Hds.vo Proofs/Hds.vo
+Props/C06.vio: Props/C06.v Base/Plan.vio Base/Table.vio Model/Hds.vio Proofs/Hds.vio
+Props/C06.vos Props/C06.vok Props/C06.required_vos: Props/C06.v Base/Plan.vos Base/Table.vos Model/Hds.vos Proofs/Hds.vos
+Props/C07.vo Props/C07.glob Props/C07.v.beautified Props/C07.required_vo: Props/C07.v Model/Qcow2.vo Proofs/Qcow2.vo Spec/Qcow2.vo Base/Plan.vo Base/Table.vo Model/Chain.vo Proofs/Chain.vo Proofs/Layers.vo Model/Vdi.vo Proofs/Vdi.vo Model/Hds.vo Proofs/Hds.vo Model/Vhdx.vo Proofs/Vhdx.vo Proofs/VhdxPartial.vo Proofs/VhdxLayer.vo Model/OpenParent.vo Proofs/OpenParent.vo
+Props/C07.vio: Props/C07.v Model/Qcow2.vio Proofs/Qcow2.vio Spec/Qcow2.vio Base/Plan.vio Base/Table.vio Model/Chain.vio Proofs/Chain.vio Proofs/Layers.vio Model/Vdi.vio Proofs/Vdi.vio Model/Hds.vio Proofs/Hds.vio Model/Vhdx.vio Proofs/Vhdx.vio Proofs/VhdxPartial.vio Proofs/VhdxLayer.vio Model/OpenParent.vio Proofs/OpenParent.vio
+Props/C07.vos Props/C07.vok Props/C07.required_vos: Props/C07.v Model/Qcow2.vos Proofs/Qcow2.vos Spec/Qcow2.vos Base/Plan.vos Base/Table.vos Model/Chain.vos Proofs/Chain.vos Proofs/Layers.vos Model/Vdi.vos Proofs/Vdi.vos Model/Hds.vos Proofs/Hds.vos Model/Vhdx.vos Proofs/Vhdx.vos Proofs/VhdxPartial.vos Proofs/VhdxLayer.vos Model/OpenParent.vos Proofs/OpenParent.vos
+Props/C08.vo Props/C08.glob Props/C08.v.beautified Props/C08.required_vo: Props/C08.v Model/Qcow2.vo Proofs/Qcow2.vo Spec/Qcow2.vo Base/Plan.vo Base/Table.vo Model/AlignedStream.vo Proofs/AlignedStream.vo Model/Lru.vo Proofs/Lru.vo Proofs/StreamReaders.vo Model/AlignedStreamB.vo Proofs/AlignedStreamB.vo Proofs/StreamBytes.vo Model/Vhd.vo Proofs/Vhd.vo Model/Vdi.vo Proofs/Vdi.vo Model/Vhdx.vo Proofs/Vhdx.vo Model/Hds.vo Proofs/Hds.vo
+Props/C08.vio: Props/C08.v Model/Qcow2.vio Proofs/Qcow2.vio Spec/Qcow2.vio Base/Plan.vio Base/Table.vio Model/AlignedStream.vio Proofs/AlignedStream.vio Model/Lru.vio Proofs/Lru.vio Proofs/StreamReaders.vio Model/AlignedStreamB.vio Proofs/AlignedStreamB.vio Proofs/StreamBytes.vio Model/Vhd.vio Proofs/Vhd.vio Model/Vdi.vio Proofs/Vdi.vio Model/Vhdx.vio Proofs/Vhdx.vio Model/Hds.vio Proofs/Hds.vio
+Props/C08.vos Props/C08.vok Props/C08.required_vos: Props/C08.v Model/Qcow2.vos Proofs/Qcow2.vos Spec/Qcow2.vos Base/Plan.vos Base/Table.vos Model/AlignedStream.vos Proofs/AlignedStream.vos Model/Lru.vos Proofs/Lru.vos Proofs/StreamReaders.vos Model/AlignedStreamB.vos Proofs/AlignedStreamB.vos Proofs/StreamBytes.vos Model/Vhd.vos Proofs/Vhd.vos Model/Vdi.vos Proofs/Vdi.vos Model/Vhdx.vos Proofs/Vhdx.vos Model/Hds.vos Proofs/Hds.vos
+Props/C09.vo Props/C09.glob Props/C09.v.beautified Props/C09.required_vo: Props/C09.v Gen/Effects.vo Model/Effects.vo Proofs/Effects.vo
+Props/C09.vio: Props/C09.v Gen/Effects.vio Model/Effects.vio Proofs/Effects.vio
+Props/C09.vos Props/C09.vok Props/C09.required_vos: Props/C09.v Gen/Effects.vos Model/Effects.vos Proofs/Effects.vos
+Props/C10.vo Props/C10.glob Props/C10.v.beautified Props/C10.required_vo: Props/C10.v Base/Plan.vo Base/Table.vo Model/Vmdk.vo Model/VmdkDesc.vo Proofs/Vmdk.vo Proofs/VmdkDesc.vo
+Props/C10.vio: Props/C10.v Base/Plan.vio Base/Table.vio Model/Vmdk.vio Model/VmdkDesc.vio Proofs/Vmdk.vio Proofs/VmdkDesc.vio
+Props/C10.vos Props/C10.vok Props/C10.required_vos: Props/C10.v Base/Plan.vos Base/Table.vos Model/Vmdk.vos Model/VmdkDesc.vos Proofs/Vmdk.vos Proofs/VmdkDesc.vos
+Props/C11.vo Props/C11.glob Props/C11.v.beautified Props/C11.required_vo: Props/C11.v Model/Qcow2.vo Proofs/Qcow2.vo Model/Vmdk.vo Proofs/Vmdk.vo Base/Plan.vo Base/Table.vo Model/Vhd.vo Proofs/Vhd.vo Model/Vdi.vo Proofs/Vdi.vo Model/Vhdx.vo Proofs/Vhdx.vo Model/Hds.vo Proofs/Hds.vo Model/SnapChain.vo Proofs/SnapChain.vo Model/HyperV.vo Proofs/HyperV.vo
+Props/C11.vio: Props/C11.v Model/Qcow2.vio Proofs/Qcow2.vio Model/Vmdk.vio Proofs/Vmdk.vio Base/Plan.vio Base/Table.vio Model/Vhd.vio Proofs/Vhd.vio Model/Vdi.vio Proofs/Vdi.vio Model/Vhdx.vio Proofs/Vhdx.vio Model/Hds.vio Proofs/Hds.vio Model/SnapChain.vio Proofs/SnapChain.vio Model/HyperV.vio Proofs/HyperV.vio
+Props/C11.vos Props/C11.vok Props/C11.required_vos: Props/C11.v Model/Qcow2.vos Proofs/Qcow2.vos Model/Vmdk.vos Proofs/Vmdk.vos Base/Plan.vos Base/Table.vos Model/Vhd.vos Proofs/Vhd.vos Model/Vdi.vos Proofs/Vdi.vos Model/Vhdx.vos Proofs/Vhdx.vos Model/Hds.vos Proofs/Hds.vos Model/SnapChain.vos Proofs/SnapChain.vos Model/HyperV.vos Proofs/HyperV.vos
+Props/C12.vo Props/C12.glob Props/C12.v.beautified Props/C12.required_vo: Props/C12.v Base/Plan.vo Model/Gates.vo Proofs/Gates.vo Gen/Consts.vo Gen/Gates.vo
+Props/C12.vio: Props/C12.v Base/Plan.vio Model/Gates.vio Proofs/Gates.vio Gen/Consts.vio Gen/Gates.vio
+Props/C12.vos Props/C12.vok Props/C12.required_vos: Props/C12.v Base/Plan.vos Model/Gates.vos Proofs/Gates.vos Gen/Consts.vos Gen/Gates.vos
+Props/C13.vo Props/C13.glob Props/C13.v.beautified Props/C13.required_vo: Props/C13.v Base/Plan.vo Base/Table.vo Model/Walk.vo Model/Io.vo Proofs/Io.vo Proofs/StreamReaders.vo Model/Vhd.vo Proofs/Vhd.vo Model/Vdi.vo Proofs/Vdi.vo Model/Vhdx.vo Proofs/Vhdx.vo Model/Hds.vo Proofs/Hds.vo
+Props/C13.vio: Props/C13.v Base/Plan.vio Base/Table.vio Model/Walk.vio Model/Io.vio Proofs/Io.vio Proofs/StreamReaders.vio Model/Vhd.vio Proofs/Vhd.vio Model/Vdi.vio Proofs/Vdi.vio Model/Vhdx.vio Proofs/Vhdx.vio Model/Hds.vio Proofs/Hds.vio
+Props/C13.vos Props/C13.vok Props/C13.required_vos: Props/C13.v Base/Plan.vos Base/Table.vos Model/Walk.vos Model/Io.vos Proofs/Io.vos Proofs/StreamReaders.vos Model/Vhd.vos Proofs/Vhd.vos Model/Vdi.vos Proofs/Vdi.vos Model/Vhdx.vos Proofs/Vhdx.vos Model/Hds.vos Proofs/Hds.vos
 Props/C14.vo Props/C14.glob Props/C14.v.beautified Props/C14.required_vo: Props/C14.v Base/Plan.vo Base/Layout.vo Gen/Consts.vo Gen/Layouts.vo Gen/MetaVmdkTables.vo Model/MetaCodec.vo Model/MetaQcow2.vo Model/MetaVhdx.vo Model/MetaVmdk.vo Model/MetaHdrs.vo Model/MetaHdd.vo Proofs/MetaCodec.vo Proofs/MetaQcow2.vo Proofs/MetaVhdx.vo Proofs/MetaVmdk.vo Proofs/MetaVmdkExt.vo Proofs/MetaHdd.vo Proofs/MetaHdrs.vo Proofs/MetaText.vo
 Props/C14.vio: Props/C14.v Base/Plan.vio Base/Layout.vio Gen/Consts.vio Gen/Layouts.vio Gen/MetaVmdkTables.vio Model/MetaCodec.vio Model/MetaQcow2.vio Model/MetaVhdx.vio Model/MetaVmdk.vio Model/MetaHdrs.vio Model/MetaHdd.vio Proofs/MetaCodec.vio Proofs/MetaQcow2.vio Proofs/MetaVhdx.vio Proofs/MetaVmdk.vio Proofs/MetaVmdkExt.vio Proofs/MetaHdd.vio Proofs/MetaHdrs.vio Proofs/MetaText.vio
 Props/C14.vos Props/C14.vok Props/C14.required_vos: Props/C14.v Base/Plan.vos Base/Layout.vos Gen/Consts.vos Gen/Layouts.vos Gen/MetaVmdkTables.vos Model/MetaCodec.vos Model/MetaQcow2.vos Model/MetaVhdx.vos Model/MetaVmdk.vos Model/MetaHdrs.vos Model/MetaHdd.vos Proofs/MetaCodec.vos Proofs/MetaQcow2.vos Proofs/MetaVhdx.vos Proofs/MetaVmdk.vos Proofs/MetaVmdkExt.vos Proofs/MetaHdd.vos Proofs/MetaHdrs.vos Proofs/MetaText.vos
+Props/C15.vo Props/C15.glob Props/C15.v.beautified Props/C15.required_vo: Props/C15.v Model/VmxCrypto.vo Proofs/VmxCrypto.vo Proofs/VmxCodec.vo
+Props/C15.vio: Props/C15.v Model/VmxCrypto.vio Proofs/VmxCrypto.vio Proofs/VmxCodec.vio
+Props/C15.vos Props/C15.vok Props/C15.required_vos: Props/C15.v Model/VmxCrypto.vos Proofs/VmxCrypto.vos Proofs/VmxCodec.vos
+Props/C16.vo Props/C16.glob Props/C16.v.beautified Props/C16.required_vo: Props/C16.v Base/Plan.vo Base/Layout.vo Model/Envelope.vo Model/EnvKeystore.vo Proofs/Envelope.vo Proofs/EnvKeystore.vo Gen/EnvelopeTables.vo
+Props/C16.vio: Props/C16.v Base/Plan.vio Base/Layout.vio Model/Envelope.vio Model/EnvKeystore.vio Proofs/Envelope.vio Proofs/EnvKeystore.vio Gen/EnvelopeTables.vio
+Props/C16.vos Props/C16.vok Props/C16.required_vos: Props/C16.v Base/Plan.vos Base/Layout.vos Model/Envelope.vos Model/EnvKeystore.vos Proofs/Envelope.vos Proofs/EnvKeystore.vos Gen/EnvelopeTables.vos
+Props/C17.vo Props/C17.glob Props/C17.v.beautified Props/C17.required_vo: Props/C17.v Base/Plan.vo Base/Layout.vo Base/Table.vo Model/HyperV.vo Spec/HyperV.vo Proofs/HyperV.vo
+Props/C17.vio: Props/C17.v Base/Plan.vio Base/Layout.vio Base/Table.vio Model/HyperV.vio Spec/HyperV.vio Proofs/HyperV.vio
+Props/C17.vos Props/C17.vok Props/C17.required_vos: Props/C17.v Base/Plan.vos Base/Layout.vos Base/Table.vos Model/HyperV.vos Spec/HyperV.vos Proofs/HyperV.vos
+Props/C18.vo Props/C18.glob Props/C18.v.beautified Props/C18.required_vo: Props/C18.v Base/Plan.vo Model/Text.vo Model/XmlTree.vo Gen/DescTables.vo Model/Vmx.vo Model/XmlDesc.vo Proofs/Text.vo Proofs/Vmx.vo Proofs/XmlDesc.vo
+Props/C18.vio: Props/C18.v Base/Plan.vio Model/Text.vio Model/XmlTree.vio Gen/DescTables.vio Model/Vmx.vio Model/XmlDesc.vio Proofs/Text.vio Proofs/Vmx.vio Proofs/XmlDesc.vio
+Props/C18.vos Props/C18.vok Props/C18.required_vos: Props/C18.v Base/Plan.vos Model/Text.vos Model/XmlTree.vos Gen/DescTables.vos Model/Vmx.vos Model/XmlDesc.vos Proofs/Text.vos Proofs/Vmx.vos Proofs/XmlDesc.vos
+Props/C19.vo Props/C19.glob Props/C19.v.beautified Props/C19.required_vo: Props/C19.v Model/XmlEntry.vo Gen/XmlSites.vo Model/XmlPredict.vo Proofs/XmlEntry.vo
+Props/C19.vio: Props/C19.v Model/XmlEntry.vio Gen/XmlSites.vio Model/XmlPredict.vio Proofs/XmlEntry.vio
+Props/C19.vos Props/C19.vok Props/C19.required_vos: Props/C19.v Model/XmlEntry.vos Gen/XmlSites.vos Model/XmlPredict.vos Proofs/XmlEntry.vos
+Props/C20.vo Props/C20.glob Props/C20.v.beautified Props/C20.required_vo: Props/C20.v Base/Layout.vo Spec/VmTar.vo Model/VmTar.vo Proofs/VmTar.vo Gen/VmTar.vo
+Props/C20.vio: Props/C20.v Base/Layout.vio Spec/VmTar.vio Model/VmTar.vio Proofs/VmTar.vio Gen/VmTar.vio
+Props/C20.vos Props/C20.vok Props/C20.required_vos: Props/C20.v Base/Layout.vos Spec/VmTar.vos Model/VmTar.vos Proofs/VmTar.vos Gen/VmTar.vos
